@@ -602,6 +602,7 @@ def run(ctx):
         if fallback:
             ctx.cov["tie"] = "G2-unavailable, validated-against-running-code" if ok else "G2-unavailable, committed table does not match the running code"
         else:
+            ctx.cov["tie"] = "G2 extraction from the source, validated against the running gauss()"
             ctx.write_gen("QuadratureTables", emit(ex, tabulate_corners(d)))
     ctx.prove("C15")
     if ex is not None:
